@@ -90,3 +90,125 @@ Proof.
 Qed.
 
 Print Assumptions init_idl_tie.
+
+(* ------------------------------------------------------------------ the validation block of Obs.__init__ *)
+Definition to_opt (a : name_arg) : option String.string := match a with NStr s => Some s | NOther => None end.
+Definition is_ok {A} (r : res A) : bool := match r with Ok _ => true | Raise _ => false end.
+
+(* the first six rejections of the constructor model Obs/WF.v:obs_init, as one boolean *)
+Definition init_checks (lens : list nat) (names : list name_arg) (idl_len : option nat) : bool :=
+  Nat.eqb (List.length lens) (List.length names)
+  && (match idl_len with Some l => Nat.eqb l (List.length names) | None => true end)
+  && all_str names
+  && str_nodup (map nm names)
+  && negb (Nat.ltb 1 (List.length (ssort_set (map (fun a => ens_of (nm a)) names))))
+  && negb (existsb (fun n => Nat.leb n 4) lens).
+
+Lemma init_checks_model lens names (idl : option (list idl_arg)) :
+  init_checks lens names (option_map (@List.length idl_arg) idl) = false -> obs_init lens names idl = Rejected.
+Proof.
+  unfold init_checks, obs_init. intro H.
+  destruct (Nat.eqb (List.length lens) (List.length names)); cbn [negb]; [|reflexivity].
+  destruct idl as [l|]; cbn [option_map] in H |- *.
+  - destruct (Nat.eqb (List.length l) (List.length names)); cbn [negb andb] in H |- *; [|reflexivity].
+    destruct (all_str names); cbn [negb andb] in H |- *; [|reflexivity].
+    destruct (str_nodup (map nm names)); cbn [negb andb] in H |- *; [|reflexivity].
+    destruct (Nat.ltb 1 _); cbn [negb andb] in H |- *; [reflexivity|].
+    destruct (existsb (fun n => Nat.leb n 4) lens); [reflexivity|discriminate].
+  - cbn [andb] in H.
+    destruct (all_str names); cbn [negb andb] in H |- *; [|reflexivity].
+    destruct (str_nodup (map nm names)); cbn [negb andb] in H |- *; [|reflexivity].
+    destruct (Nat.ltb 1 _); cbn [negb andb] in H |- *; [reflexivity|].
+    destruct (existsb (fun n => Nat.leb n 4) lens); [reflexivity|discriminate].
+Qed.
+
+Lemma optstr_set_le l : (List.length (optstr_set l) <= List.length l)%nat.
+Proof. induction l as [|x r IH]; simpl; [lia|]. destruct (existsb (optstr_eqb x) r); simpl; lia. Qed.
+Lemma exists_some_smem x r : existsb (optstr_eqb (Some x)) (map Some r) = smem x r.
+Proof. unfold smem. induction r as [|y r IH]; simpl; [reflexivity|]. rewrite IH. reflexivity. Qed.
+Lemma optstr_set_nodup (l : list String.string) :
+  Nat.eqb (List.length (map Some l)) (List.length (optstr_set (map Some l))) = str_nodup l.
+Proof.
+  induction l as [|x r IH]; [reflexivity|]. cbn [map optstr_set str_nodup]. rewrite exists_some_smem.
+  destruct (smem x r); cbn [negb andb].
+  - apply Nat.eqb_neq. pose proof (optstr_set_le (map Some r)). cbn [List.length]. lia.
+  - cbn [List.length]. exact IH.
+Qed.
+
+Lemma all_str_map names : all_str names = true -> map to_opt names = map Some (map nm names).
+Proof.
+  induction names as [|a r IH]; intro H; [reflexivity|]. simpl in H. destruct a; [|discriminate]. simpl. rewrite IH by exact H. reflexivity.
+Qed.
+Lemma all_str_forallb names : forallb (fun b : bool => b) (map (fun x => is_some x) (map to_opt names)) = all_str names.
+Proof. induction names as [|a r IH]; [reflexivity|]. simpl. rewrite IH. destruct a; reflexivity. Qed.
+
+Lemma min_le4 (lens : list nat) : lens <> [] ->
+  (Z.of_nat (fold_right Nat.min (hd 0%nat lens) lens) <=? 4) = existsb (fun n => Nat.leb n 4) lens.
+Proof.
+  intro H. destruct lens as [|x r]; [congruence|]. cbn [hd]. clear H.
+  assert (G : forall r m, (Z.of_nat (fold_right Nat.min m r) <=? 4) = (existsb (fun n => Nat.leb n 4) r || (Z.of_nat m <=? 4))).
+  { induction r0 as [|y r0 IH]; intro m; [reflexivity|]. cbn [fold_right existsb]. specialize (IH m).
+    destruct (Nat.leb_spec y 4); destruct (existsb (fun n => Nat.leb n 4) r0); destruct (Z.of_nat m <=? 4) eqn:Em; cbn [orb] in *; lia. }
+  cbn [fold_right existsb]. specialize (G r x).
+  destruct (Nat.leb_spec x 4); destruct (existsb (fun n => Nat.leb n 4) r); destruct (Z.of_nat x <=? 4) eqn:Ex; cbn [orb] in *; lia.
+Qed.
+
+Lemma if_merge {A} (b c : bool) (R K : A) : (if b then (if c then R else K) else K) = if b && c then R else K.
+Proof. destruct b, c; reflexivity. Qed.
+
+Theorem init_validation_tie (lens : list nat) (names : list name_arg) (idl_len : option nat) :
+  lens <> [] ->
+  is_ok (obs_init_validation true (zlen lens) (map to_opt names) (is_some idl_len)
+           (match idl_len with Some l => Z.of_nat l | None => 0 end) (Z.of_nat (fold_right Nat.min (hd 0%nat lens) lens)))
+  = init_checks lens names idl_len.
+Proof.
+  intro Hne. unfold obs_init_validation, init_checks. cbv zeta.
+  assert (Hn0 : (zlen lens =? 0) = false) by (unfold zlen; destruct lens; [congruence|simpl; lia]).
+  rewrite Hn0. cbn [andb negb].
+  assert (Hlen : zlen (map to_opt names) = Z.of_nat (List.length names)) by (unfold zlen; rewrite map_length; reflexivity).
+  rewrite Hlen.
+  replace (zlen lens =? Z.of_nat (List.length names)) with (Nat.eqb (List.length lens) (List.length names))
+    by (unfold zlen; destruct (Nat.eqb_spec (List.length lens) (List.length names)); symmetry; lia).
+  destruct (Nat.eqb (List.length lens) (List.length names)) eqn:El; cbn [negb andb]; [|reflexivity].
+  assert (Hnames : names <> []) by (apply Nat.eqb_eq in El; destruct names; [destruct lens; [congruence|discriminate]|congruence]).
+  rewrite if_merge.
+  replace (is_some idl_len && negb (match idl_len with Some l => Z.of_nat l | None => 0 end =? Z.of_nat (List.length names)))
+    with (negb (match idl_len with Some l => Nat.eqb l (List.length names) | None => true end))
+    by (destruct idl_len as [l|]; cbn [is_some andb negb]; [destruct (Nat.eqb_spec l (List.length names)); cbn [negb]; symmetry; lia|reflexivity]).
+  destruct (match idl_len with Some l => Nat.eqb l (List.length names) | None => true end); cbn [negb andb]; [|reflexivity].
+  rewrite min_le4 by exact Hne.
+  rewrite (py_map_total _ (fun x => is_some x)) by (intros; reflexivity). cbn [bind]. rewrite all_str_forallb.
+  destruct (Z.of_nat (List.length names) >? 1) eqn:EN.
+  - destruct (all_str names) eqn:Eall; cbn [andb].
+    + rewrite (all_str_map names Eall). set (l := map nm names).
+      replace (Z.of_nat (List.length names) =? zlen (optstr_set (map Some l))) with (str_nodup l).
+      2:{ rewrite <- optstr_set_nodup. unfold zlen, l. rewrite !map_length.
+          destruct (Nat.eqb_spec (List.length names) (List.length (optstr_set (map Some (map nm names))))); symmetry; lia. }
+      destruct (str_nodup l); cbn [negb andb]; [|reflexivity].
+      rewrite (py_map_total _ (fun o => ens_of (match o with Some s0 => s0 | None => String.EmptyString end))).
+      2:{ intros x Hx. apply in_map_iff in Hx. destruct Hx as [s0 [<- _]]. reflexivity. }
+      cbn [bind]. rewrite map_map. unfold l. rewrite map_map.
+      replace (zlen (ssort_set (map (fun x => ens_of (nm x)) names)) >? 1)
+        with (Nat.ltb 1 (List.length (ssort_set (map (fun a => ens_of (nm a)) names)))).
+      2:{ unfold zlen. destruct (Nat.ltb_spec 1 (List.length (ssort_set (map (fun a => ens_of (nm a)) names)))); symmetry; lia. }
+      destruct (Nat.ltb 1 _); cbn [negb andb]; [reflexivity|].
+      destruct (existsb (fun n => Nat.leb n 4) lens); reflexivity.
+    + destruct (negb (Z.of_nat (List.length names) =? zlen (optstr_set (map to_opt names)))); reflexivity.
+  - destruct names as [|a [|b r]]; [congruence| |cbn [List.length] in EN; lia].
+    cbn [map]. rewrite (py_index_nth [to_opt a] 0 None) by (unfold zlen; simpl; lia). cbn [bind Z.to_nat nth].
+    destruct a as [s0|]; cbn [to_opt is_some negb all_str forallb andb map nm str_nodup smem existsb].
+    + unfold ssort_set. cbn [fold_right sinsert List.length Nat.ltb Nat.leb negb andb].
+      destruct (existsb (fun n => Nat.leb n 4) lens); reflexivity.
+    + reflexivity.
+Qed.
+
+(* consequence: whenever the regenerated validation lets a request through, the constructor model does not reject it for one of its first
+   six reasons, and whenever it raises, the model rejects *)
+Corollary init_validation_rejects lens names (idl : option (list idl_arg)) :
+  lens <> [] ->
+  is_ok (obs_init_validation true (zlen lens) (map to_opt names) (is_some (option_map (@List.length idl_arg) idl))
+           (match option_map (@List.length idl_arg) idl with Some l => Z.of_nat l | None => 0 end) (Z.of_nat (fold_right Nat.min (hd 0%nat lens) lens))) = false ->
+  obs_init lens names idl = Rejected.
+Proof. intros Hne H. apply init_checks_model. rewrite <- init_validation_tie by exact Hne. exact H. Qed.
+
+Print Assumptions init_validation_tie.
